@@ -1,10 +1,5 @@
 # J1939-22 (CAN FD): FD.TP.CM / FD.TP.DT frame builders against the independent layouts of specs/j22_spec.py (C03, C02)
 
-def lut_ok(dll):
-    # the DLC look-up table built in __init__: next legal CAN FD length for every length 0..64
-    return len(dll._LUT_FD_DLC) == 65 and forall(lambda i: dll._LUT_FD_DLC[i] == fd_len(i), 0, 65)
-
-
 @unit("j1939.j1939_22:J1939_22.__send_tp_cm", props=["C02"])
 def _(self: "J1939_22", src_address: "int", dest_address: "int", TpControlType: "int", session_num: "int", message_size: "int",
       num_segments: "int", byte_7: "int", byte_8: "int", pgn: "int", priority: "int"):
@@ -87,14 +82,14 @@ def _(self: "J1939_22", priority: "int", src_address: "int", session_num: "int",
 
 
 # FD.TP.DT: header (session nibble, 24-bit segment number), the segment octets, 0xFF fill to a legal CAN FD length.
-# NB: the builder edits the list it is given (header inserted in place, fill appended): frame condition below.
+# The frame is built in a new list: the segment handed in (the one stored in the session) is not modified (frame condition).
 @unit("j1939.j1939_22:J1939_22.__send_tp_dt", props=["C02"])
 def _(self: "J1939_22", src_address: "int", dest_address: "int", session_num: "int", segment_num: "int", data: "octets", Dtfi: "int"):
     requires(lut_ok(self), len(data) <= 60, octets(data), -2**40 <= src_address < 2**40, -2**40 <= dest_address < 2**40,
              0 <= session_num < 2**16, 0 <= segment_num < 2**24, 0 <= Dtfi < 2**16)
     let("n", len(data))
     let("payload", old(data))
-    modifies(trace, elems(data))
+    modifies(trace)
     ensures("C03.fd.dt", len(trace) == old(len(trace)) + 1,
             trace[-1].fn == self.__send_message and trace[-1].n == 3 and trace[-1].i0 == fd_dt_id(dest_address, src_address)
             and trace[-1].b1 == True and trace[-1].b_fd_format == True,
